@@ -35,9 +35,9 @@ def fpTab (cols : List (List Int)) : Int := Htab P B BT cols
 
 /-! ### container-valued elements
 
-`_hash_element` of a set, tuple or list is the same rolling hash over the hashes of its items (a set: of its sorted items — the
-sort is Python's and stays an oracle: the harness sends the items in sorted order), started from an accumulator that depends on
-the container's kind and length, so that `0`, `[0]`, `(0,)`, `(0, 0)`, `{0}` and `()` are hashed differently.  The starting values
+`_hash_element` of a set, tuple or list is the same rolling hash over the hashes of its items (a set: the item hashes in
+ascending order, which depends on the members only; the harness sends them in that order), started from an accumulator that
+depends on the container's kind and length, so that `0`, `[0]`, `(0,)`, `(0, 0)`, `{0}`, `()` and `[]` are hashed differently.  The starting values
 are read off the behaviour of the current source (`Gen.fpSeeds`). -/
 
 /-- starting accumulator for a container of `kind` (1 set, 2 tuple, 3 list) with `n` items -/
